@@ -183,6 +183,24 @@ def run_case(case, rec):
         gmax = max(float(np.max(a)) for k2, a in params.items() if "_g" in k2)
         report("currents", _cmp(rec, "currents", cur, want, "cur", floor=1e-13 * gmax), "current")
         rec.sig(f"{mech}|current|{case['vclass']}")
+        # the state update as a whole (which rate function is used with which parameter) against the papers
+        if stable:
+            dt = float(trees.logu(rng, 1e-3, 10.0))
+            new = obj.update_states(js, dt, jnp.asarray(v), jp)
+            for key, fn in R2.fmt(spec["gates"], p).items():
+                keep = np.ones(NV, bool)
+                if mech == "CaT":
+                    keep = (v + params[f"{p}_vx"]) < -20.5  # above: tau_u is known finding F12, judged by the tau comparison
+                want = []
+                for i in np.where(keep)[0]:
+                    r = fn(float(v[i]), P(i), p)
+                    x = mp.mpf(float(states[key][i]))
+                    want.append(r["inf"] + (x - r["inf"]) * mp.exp(-mp.mpf(dt) / r["tau"]))
+                if len(want):
+                    bad = _cmp(rec, "rates", np.asarray(new[key])[keep], want, "inf")
+                    idx = np.where(keep)[0]
+                    report("rates", [(int(idx[i]), g, w) for (i, g, w) in bad], "state_update", key[len(p) + 1:])
+            rec.sig(f"{mech}|update|{case['vclass']}")
     else:
         vpost = rng.uniform(-100, 50, NV)
         cur = obj.compute_current(js, jnp.asarray(v), jnp.asarray(vpost), jp)
